@@ -141,10 +141,10 @@ CHECKS = {
         note=TRUST_W, engine="W"),
     "C12": dict(
         category="exploration",
-        text="PARTIAL.  Decided for every 64-bit operand (proof, linear relational analysis with path partitioning over the IR of the three "
+        text="PARTIAL.  Decided for every 64-bit operand (proof, relational analysis with path partitioning over the IR of the "
              "functions): add_mod (under the weaker precondition a <= n that mul_mod's own call relies on), sub_mod and half_mod_odd never wrap in "
              "an operation that contributes to the result, return a value in [0, n), and that value is a+b / a+b-n, a-b / a-b+n, resp. r with "
-             "2r = a or a+n.  Also decided (typestate rule on find_prime_factor's own IR, no inlining): every value that can reach its `ret` traces "
+             "2r = a or a+n.  mul_mod is decided for every operand triple with a < n, b < n by induction over its recursion: no unsigned wrap, no division by zero, the recursive call meets the same precondition with the same modulus and a strictly smaller first operand, the result lies in [0, n) and result - a*b is a polynomial multiple of n (products / quotients by non-constants are terms constrained by axioms that hold for all non-negative integers).  pow_mod under n >= 2: an inductive loop invariant is inferred under which every mul_mod call meets its precondition and the result lies in [0, n) - that it equals base^exp is not decided.  Also decided (typestate rule on find_prime_factor's own IR, no inlining): every value that can reach its `ret` traces "
              "back, through phis / selects / casts, to an entry of the table of first primes (entries checked to be exactly the first primes), "
              "to a recursive result, to a value on an edge reachable only through a true is_prime(value), or to n chosen because p*p > n inside "
              "the trial division - never to an unchecked result of the rho search.  Explored, not decided: the statement's consequence clause, which is about types - decltype(mag<N>()) is the canonical "
@@ -152,9 +152,9 @@ CHECKS = {
              "for adversarial and seeded N with factorisations from independent Python integer arithmetic (strong base-2 pseudoprimes incl. those "
              "without a factor below 541, strong Lucas pseudoprimes, Carmichael numbers, prime squares / cubes, semiprimes with factors next to "
              "2^16 / 2^31 / 2^32, primes next to 2^k up to 2^64-59).  No value of is_prime / find_prime_factor / mul_mod / pow_mod is asserted "
-             "directly and none of them is decided for every 64-bit input (no static argument in reach bounds Baillie-PSW or Pollard rho); the "
+             "directly and is_prime / find_prime_factor are not decided for every 64-bit input (no static argument in reach bounds Baillie-PSW or Pollard rho); the "
              "thorough tier widens the sample, it does not enumerate n < 2^26.",
-        design_ref="3.12", technique="polyhedral (linear-inequality) relational analysis of LLVM IR with path partitioning, entailment by Fourier-Motzkin; typestate (primality-evidence) rule over the CFG of find_prime_factor; compile-time witness programs against exact integer arithmetic",
+        design_ref="3.12", technique="polyhedral (linear-inequality) relational analysis of LLVM IR with path partitioning, product / quotient terms under integer-arithmetic axioms, call summaries (induction over the recursion), inferred loop invariant, entailment by Fourier-Motzkin; typestate (primality-evidence) rule over the CFG of find_prime_factor; compile-time witness programs against exact integer arithmetic",
         note=TRUST_W + "; " + TRUST_I + "; vlib/linrel.py (Fourier-Motzkin over the rationals is sound for entailment)", engine="I+W"),
     "C13": dict(
         category="proof",
